@@ -36,7 +36,8 @@ def x_scale(name, opts, vals, x):
     if name == "Logit":
         return max(abs(x), abs(vals["lower"]))
     if name == "YeoJohnson":
-        return max(abs(x), abs(vals["nu"]) / vals["scale"])
+        # the closed forms work on 1 + |w|, w = nu + scale*x: accuracy is relative to 1 in w
+        return max(abs(x), (abs(vals["nu"]) + 1.0) / vals["scale"])
     if name == "LogSinh":
         return max(abs(x), vals["xmax"] * math.exp(vals["loga"] - vals["logb"]))
     return abs(x)
@@ -165,6 +166,13 @@ def run(ctx):
         return len(goals) - 1
 
     npts = ctx.scale(4, 6)
+    # work list: corpus first (earlier failures: corpus/C01/*.json, {"case": {class, opts,
+    # vals, xs}}), then the generated instances
+    work = []
+    for c in cm.load_corpus(PID):
+        if c.get("class") in tc.CLASSES and c.get("class") != "Softmax":
+            work.append((c["class"], dict(c.get("opts", {})), dict(c["vals"]), False, 0,
+                         [float(v) for v in c["xs"]]))
     for name in tc.CLASSES:
         if name == "Softmax":
             continue
@@ -172,11 +180,12 @@ def run(ctx):
         nvec = ctx.scale(NVEC_QUICK[name], 5 * NVEC_QUICK[name] + 10)
         for k in range(nvec):
             opts = variants[k % len(variants)]
-            vals = vec_k(name, opts, rng, k)
-            via_get = (k % 2 == 1)
+            work.append((name, opts, vec_k(name, opts, rng, k), k % 2 == 1, k, None))
+    if True:
+        for name, opts, vals, via_get, k, xs0 in work:
             cm.mark({"call": "transform", "class": name, "opts": opts, "vals": vals})
             t, eff = tc.make(name, opts, vals, via_get)
-            xs = tc.points(name, opts, eff, rng, npts)
+            xs = xs0 if xs0 is not None else tc.points(name, opts, eff, rng, npts)
             if not xs:
                 continue
             base = {"class": name, "opts": opts, "values": eff, "via_get_transform": via_get}
@@ -272,14 +281,24 @@ def run(ctx):
                                     f"{name}{opts} {eff}: backward_censored([{y!r}], {censor!r}) raised {cerr}")
                         continue
                     o = None if math.isnan(out) else out
-                    # tolerance: backward at the censored argument, or exact censor value
-                    tb = tc.tolerance(name, "bwd", opts, eff, y, out if o is not None else 0.0)
-                    tcf = tc.tolerance(name, "fwd", opts, eff, censor, y) if o is not None else 0.0
-                    if tb is None or tcf is None:
+                    # tolerance: forward-error bound of backward at the argument actually used,
+                    # yc = max(y, forward(censor)); when the censor is active the exact value is
+                    # censor itself and the implementation returns max(backward(forward(censor)),
+                    # censor): allow the round-trip error there
+                    tcen, _ = tc.call(t, "fwd", [censor])
+                    if tcen is None or not math.isfinite(tcen[0]):
                         continue
-                    # the censored argument max(y, forward(censor)) may sit on either side of a
-                    # float tie: widen by the backward image of forward's own error
-                    tol = 4 * tb + 1e-9 * max(1.0, abs(out if o is not None else 0.0))
+                    if o is None:       # NaN although y is on the image and censor in the domain
+                        add_goal(tc.goal_censored(name, opts, eff, censor, y, None, 0.0), rep)
+                        ctx.count((name, "censored", "nan"))
+                        continue
+                    yc = max(y, tcen[0])
+                    tb = tc.tolerance(name, "bwd", opts, eff, yc, out)
+                    if tb is None:
+                        continue
+                    tol = 4 * tb + 1e-9 * max(1.0, abs(out))
+                    if y <= tcen[0] + 1e-6 * max(1.0, abs(tcen[0])):
+                        tol += 2 * rtol * x_scale(name, opts, eff, censor)
                     add_goal(tc.goal_censored(name, opts, eff, censor, y, o, tol), rep)
                     ctx.count((name, "censored", "nan" if o is None else
                                "censor-active" if o == censor else "plain"))
